@@ -27,6 +27,8 @@ func main() {
 		os.Exit(2)
 	}
 	switch os.Args[1] {
+	case "c18child":
+		c18Child(os.Args[2:])
 	case "gen":
 		if len(os.Args) < 3 {
 			fmt.Fprintln(os.Stderr, "usage: harness gen <outfile>")
